@@ -391,6 +391,9 @@ fn part_tasks(report: &Report, tier: Tier) {
 
 pub fn run(opts: Opts) -> i32 {
     let report = Report::new("C17", "exploration", opts.clone());
+    if let Some(path) = &opts.replay {
+        report.replay_by_re_enumeration(path);
+    }
     report.set_rule(
         "part 1: every output of <=3 (quick) / <=4 (thorough) symbols from {a, LF, 2-byte, 4-byte, 0xFF} (<=10 bytes) x ALL compositions into \
          read chunks x preview limit 0..6 x artifact cap {0,1,3,8,unbounded} through the real foreground capture loop with a scripted \
